@@ -356,6 +356,7 @@ def _modstate(ctx):
                         n += 1
                         ctx.ob("C10.modstate", f, x, False, "setattr on module-level object {}".format(r))
     n += _shared_nested(ctx)
+    n += _shared_through_views(ctx, inits)
     n += _memoised(ctx)
     ctx.count("module_state_write_sites", n)
     ctx.count("functions_scanned_for_module_state", len(index.nontest_funcs()))
@@ -460,6 +461,40 @@ def _mut_depths(f, name):
             if d:
                 out.append((d, n))
     return out
+
+
+def _shared_through_views(ctx, inits):
+    """
+    The inter-procedural version of the alias / shallow-copy rule: the view analysis of sa/inputmut.py with module-level
+    mutable containers as roots. A function that mutates an object below such a container — through an alias, a shallow
+    copy (`dict(G)`, `G.copy()`), a `partial(f, state=copy)`, a decorator's wrapper, a callee — keeps state between
+    calls. Direct stores into the container itself are reported by the syntactic part of C10.modstate above; here only
+    what that part cannot see (level >= 1, or reached through a callee).
+    """
+    im = input_mutation(ctx.index)
+    n = 0
+    seen = set()
+    for qual, g, L, w in sorted(im.global_mutations(), key=lambda t: (t[0], t[1], t[2])):
+        f = ctx.index.funcs.get(qual)
+        if f is None or qual in inits or (qual, g) in seen:
+            continue
+        if L == 0 and w[1] is None:
+            continue  # a direct store: the syntactic rule's business
+        seen.add((qual, g))
+        n += 1
+        key = [k for k in im.muts if k[0] == qual and k[1].endswith(">" + g)][0][1]
+        chain = im.chain(qual, key, L)
+        leaf = chain.rpartition(" -> ")[2]
+        ctx.ob(
+            "C10.modstate",
+            f,
+            "module-level {} mutated below a copy / through a callee: {}".format(g.rpartition(".")[2], leaf.partition(" ")[2]),
+            False,
+            "an object shared through module-level {} (nesting level {}) is mutated: {} — the nested objects are the same in every "
+            "call, so what a call returns depends on the calls before it".format(g, L, chain),
+            line=getattr(w[0], "lineno", None),
+        )
+    return n
 
 
 def _shared_nested(ctx):
